@@ -7,7 +7,8 @@ ID = "C13"; MODEL = "life"; IMPL = "life"
 COQ_PROP = "Properties/C13.v"; COQ_DIRS = ["Common", "Life"]
 COQ_MODULE = "Life.Model"; RUN_FN = "run"
 THEOREMS = ["C13_contained", "C13_errors_exact", "C13_ok_only_if_no_uncaught_panic", "C13_globals_released",
-            "C13_others_as_if_silent", "C13_stereotype_in_force", "C13_errors_exact_full", "C13_ok_iff", "C13_others_teardown", "C13_silent_ends_no_later", "C13_only_catch_flag_matters"]
+            "C13_others_as_if_silent", "C13_stereotype_in_force", "C13_errors_exact_full", "C13_ok_iff", "C13_others_teardown", "C13_silent_ends_no_later", "C13_only_catch_flag_matters",
+            "C13_others_as_if_silent_cq", "C13_others_teardown_cq", "C13_silent_ends_no_later_cq", "C13_errors_exact_full_cq", "C13_ok_iff_cq"]
 QUICK_N = 2500; THOROUGH_N = 120000
 RULE = ("scripts as for C09 (2..4 scripted modules with handler / start / task / end programs, injected messages) with a panic -- an "
         "explicit panic!(), or one raised by the library on behalf of the module: schedule_at / send_at / "
@@ -69,7 +70,10 @@ CLAIM = dict(
          "a pending timer or next_wakeup); silent_ends_no_later: every tear-down record of the run in which m falls silent is stamped "
          "no later than every tear-down record of the run in which it panics (proved via 'nothing is scheduled into the past': the "
          "event set's clock is the time of the last dispatched event, every queued event lies at or after it, timer queues are sorted, "
-         "so a run ends exactly at its never-decreasing horizon, and the silent run's horizon stays at or below the panicking one's).  Tied to "
+         "so a run ends exactly at its never-decreasing horizon, and the silent run's horizon stays at or below the panicking one's).  "
+         "Composition with C01: the model's event loop over the concrete calendar queue (any n, t >= 1) returns the same result as over the "
+         "event-set specification (Properties/C09.v C09_run_script_over_cqueue, through C01's refinement relation), and (2), (4) and "
+         "silent_ends_no_later are restated for the run over the calendar queue itself (_cq theorems).  Tied to "
          "des on every invocation by differential runs (panic!() in scripted callbacks and tasks on the real runtime, set_stereotyp, "
          "RuntimeError contents, is_active samples after every event), each script simulated twice in one process (the second run must "
          "equal the first: global state stays usable) and, for callback panics, a third time in its falls-silent variant whose other "
